@@ -115,11 +115,18 @@ def histories(run):
                 # (rounds less than the idle time apart: each of them finds the connection unused for longer)
                 ops += [op("Sleep", k=40), op("HC")] * 4 + [op("Acquire", "u1"), op("Use", "u1", "ping"), op("Release", "u1")]
                 hs.append({"id": "c11-%d" % (len(hs) + 1), "users": users, "max": mx, "minc": minc, "lifeMs": 5000, "idleMs": 60, "ops": ops})
+    # Pool.Do / Pool.Ping around the lifetime of a connection: the release inside them applies the same rules
+    for how2 in ("ok", "ping", "exc"):
+        for sleep in (40, 130):
+            for tail in ([op("Acquire", "u2"), op("Use", "u2", "ok"), op("Release", "u2")], [op("PoolDo", "u2", "ok")], [op("HC"), op("Acquire", "u1")]):
+                hs.append({"id": "c11-%d" % (len(hs) + 1), "users": u2, "max": 1, "minc": 0, "lifeMs": LIFE, "idleMs": 60000,
+                           "ops": [op("PoolDo", "u1", "ok"), op("Sleep", k=sleep), op("PoolDo", "u1", how2)] + tail})
     # random longer histories with time passing
     u3 = ["u1", "u2", "u3"]
     for i in range(3000 if T else 400):
         users, mx, minc = rng.choice([(u2, 1, 0), (u3, 2, 1), (u3, 2, 0), (u3, 3, 2)])
-        al = alphabet(users) + [op("Use", u, "ok") for u in users] + [op("Use", u, "cancelled") for u in users[:1]]
+        al = alphabet(users) + [op("Use", u, "ok") for u in users] + [op("Use", u, "cancelled") for u in users[:1]] + \
+            [op("PoolDo", u, h) for u in users for h in ("ok", "ping", "exc")]
         ops = []
         for _ in range(rng.randrange(4, 16)):
             r = rng.random()
@@ -279,7 +286,7 @@ def body(run):
                     break
             if again is None:
                 run.notes.append("rejection of history %s not reproduced in 5 replays of the history by itself: %s" % (hid, (r["line"] or "")[:200]))
-                V.log("  NOTE: the rejection of history %s was not reproduced in 5 replays; not a verdict" % hid)
+                V.log("  NOTE: the rejection of history %s was not reproduced in 5 replays; not a verdict: %s" % (hid, (r["line"] or "")[:300]))
             else:
                 kept.append(again)
         v.rejections = kept
